@@ -200,7 +200,12 @@ class S3Basin(Basin):
         super(S3Basin, self).__init__(*args, **kwargs)
 
     def _load_dataset(self, location, **kwargs):
-        h5file = RTDC_S3(location, **kwargs)
+        try:
+            h5file = RTDC_S3(location, **kwargs)
+        except botocore.exceptions.BotoCoreError as exc:
+            # e.g. connection lost after the availability check
+            raise ConnectionError(
+                f"Could not load S3 basin '{location}'") from exc
         return h5file
 
     def is_available(self):
